@@ -153,9 +153,14 @@ FRESH = (
     "import sys, numpy as np\n"
     "from vlib import boot; boot.boot()\n"
     "from checks import c12_purity as C\n"
+    "if len(sys.argv) > 3:\n"
+    "    from bldfm import config as rc; rc.NUM_THREADS = int(sys.argv[3])\n"
     "c, f = C.do_solve(C.requests()[sys.argv[1]])\n"
     "np.savez(sys.argv[2], c=c, f=f)\n"
 )
+# a second model table for a few requests: another process environment (thread-count variables of the numerical libraries set,
+# three solver threads, the other kernel world) - "equal to rounding across thread settings and processes"
+ENVB = ("r0", "r4", "r8", "r11", "r22", "v0")
 
 
 def need(nm):
@@ -172,6 +177,7 @@ def need(nm):
 
     if nm in _table:
         return
+    envb = nm.endswith("@envB")
     d = os.path.abspath(os.path.join("..", "c12_fresh_table"))
     os.makedirs(d, exist_ok=True)
     out = os.path.join(d, nm + ".npz")
@@ -181,7 +187,14 @@ def need(nm):
         if not os.path.exists(out):
             os.makedirs(wd, exist_ok=True)
             tmp = out + f".{os.getpid()}.tmp.npz"
-            r = subprocess.run([sys.executable, "-c", FRESH, nm, tmp], capture_output=True, text=True, timeout=900, cwd=wd)
+            if envb:
+                e_ = dict(os.environ, NUMBA_NUM_THREADS="5", OMP_NUM_THREADS="2", MKL_NUM_THREADS="3", OPENBLAS_NUM_THREADS="3")
+                w_ = "S" if os.environ.get("VERIF_KERNEL_WORLD", "S") == "P" else "P"
+                e_["VERIF_KERNEL_WORLD"] = w_
+                e_["NUMBA_CACHE_DIR"] = os.environ["NUMBA_CACHE_DIR"][:-1] + w_
+                r = subprocess.run([sys.executable, "-c", FRESH, nm[:-5], tmp, "3"], capture_output=True, text=True, timeout=900, cwd=wd, env=e_)
+            else:
+                r = subprocess.run([sys.executable, "-c", FRESH, nm, tmp], capture_output=True, text=True, timeout=900, cwd=wd)
             if r.returncode != 0 or not os.path.exists(tmp):
                 err = [l for l in r.stderr.splitlines() if "Error" in l and "thread" not in l]
                 raise RuntimeError(f"fresh-process solve of {nm} failed: {err[-3:]}")
@@ -234,7 +247,7 @@ def run_case(case):
     for s_, d_ in list(PAIRS.items()) + list(TWINS.items()):  # keep precision pairs and mode twins together
         if s_ in pool and d_ not in pool:
             pool.append(d_)
-    for nm_ in pool + [SAME_VALUES[x] for x in pool if x in SAME_VALUES]:
+    for nm_ in pool + [SAME_VALUES[x] for x in pool if x in SAME_VALUES] + [x + "@envB" for x in pool if x in ENVB]:
         need(nm_)
     viol, sigs = [], set()
     counters = {"solves": 0, "bitwise_repeats": 0, "cross_thread_comparisons": 0, "fresh_table_comparisons": 0, "precision_pair_comparisons": 0,
@@ -368,6 +381,15 @@ def run_case(case):
                 resid[key] = max(resid[key], float(e))
                 if e > tolr:
                     viol.append(dict(what="result_depends_on_history", rel=float(e), **ctx))
+            # (2b') the same request solved in a fresh process with another environment
+            if nm + "@envB" in _table and c.shape == _table[nm + "@envB"][0].shape:
+                cb_, fb_ = _table[nm + "@envB"]
+                e = max(np.max(np.abs(c - cb_)) / (np.max(np.abs(cb_)) or 1), np.max(np.abs(f - fb_)) / (np.max(np.abs(fb_)) or 1))
+                counters["other_environment_comparisons"] = counters.get("other_environment_comparisons", 0) + 1
+                resid["vs_other_process_environment"] = max(resid.get("vs_other_process_environment", 0.0), float(e))
+                if not e <= tolr:
+                    viol.append(dict(what="result_depends_on_process_environment", rel=float(e),
+                                     environment="NUMBA_NUM_THREADS=5 OMP_NUM_THREADS=2, NUM_THREADS=3, other kernel world", **ctx))
             # (2c) another spelling of the same argument values
             if nm in SAME_VALUES:
                 cv, fv = _table[SAME_VALUES[nm]]
